@@ -378,6 +378,22 @@ pub fn glv<P: GLVConfig>(name: &str, rep: &mut Report, rng: &mut Rng, iters: usi
 pub fn items(args: &Args) -> Vec<Item> {
     let mut v: Vec<Item> = vec![];
     let shards = 8usize;
+    // window sizes outside 2..=63 have no windowed-NAF recoding: documented to be refused by the constructor
+    v.push(Item::new("c04/wnaf-window-range", |rep, _, _| {
+        for w in [0usize, 1, 64, 65, 1000] {
+            rep.class("wnaf: window size outside 2..=63 (must be refused)");
+            rep.eval(digest(&("wnaf-window", w)), true);
+            if guard(|| WnafContext::new(w)).is_ok() {
+                rep.violation("scalar_mul/WnafContext::new/accepts-invalid-window".to_string(), json!({"window": w}));
+            }
+        }
+        for w in [2usize, 3, 32, 63] {
+            rep.eval(digest(&("wnaf-window", w)), true);
+            if guard(|| WnafContext::new(w)).is_err() {
+                rep.violation("scalar_mul/WnafContext::new/refuses-valid-window".to_string(), json!({"window": w}));
+            }
+        }
+    }));
     macro_rules! toy_sw {
         ($name:literal, $cfg:ty) => {
             let meta = crate::model::toy_desc($name);
